@@ -458,3 +458,28 @@ CHECKS["C04"] = dict(
     technique="property-based testing (rapid) for histories x enumeration of crash points with a ptrace fault injector",
     design_ref="DESIGN.md section 4, C04",
 )
+
+CHECKS["C20"] = dict(
+    pkg="c20", level="exploration", race=True,
+    props=[dict(name="TestPropConcurrent", quick=72, thorough=16 * 150, shards_quick=12, shards_thorough=16, shrinktime="10s",
+                timeout_quick=1800, timeout_thorough=14400)],
+    rule="the whole harness and every simpleiot package are compiled with -race. Per case 4-10 workers, each with its own bus "
+         "connection and a drawn program of 20-60 operations: node-point and edge-point writes to three shared nodes (one "
+         "mirrored) with globally distinct generated timestamps, reads, admin.storeVerify, node creation, drawn Gosched / "
+         "microsecond pauses; in the rootChurn class (about 25%) one worker keeps inserting a new root (the import-at-root "
+         "path) while the others mostly read nodes.root.all; GOMAXPROCS drawn from {1,2,4,8,16}; in about 25% of the cases "
+         "Store.Stop is called in the middle of the load. Oracle: every request is answered while the store runs (20 s); a "
+         "valid request is never refused; per worker a read after its own acknowledged write shows a time >= that write and "
+         "successive reads never go back in time; after the load the dump equals the newest-wins model of the acknowledged "
+         "writes (writes that were sent but not acknowledged because of the stop may or may not be there) and every stored "
+         "hash equals the Merkle hash of the content; Run returns after Stop; the same file opens again and holds the same "
+         "content; the race detector reports nothing (GORACE halt_on_error exits the binary with code 66; its report is the "
+         "replay artefact). Non-trivial = >= 4 workers and >= 2 identities written by >= 2 workers.",
+    assumptions=["interleavings are whatever the Go scheduler produces under the drawn perturbations; a failure of this check is not shrinkable",
+                 "requests in flight when Stop is called may be answered with an error or dropped"],
+    level_text="Generated concurrent workloads (rapid) under the race detector with per-worker and global consistency oracles; schedules "
+               "are sampled.",
+    level_note="Trusted: the Go race detector; the newest-wins and Merkle models.",
+    technique="property-based testing (rapid) of concurrent programs under the Go race detector",
+    design_ref="DESIGN.md section 4, C20",
+)
